@@ -266,19 +266,63 @@ def run(chk):
                 lint_idx = i
         if isinstance(st, ast.If) and norm(st.test) in (f"{ret_name}.is_cyclic()",) and st.body and isinstance(st.body[-1], ast.Raise) and not st.orelse:
             cyc_idx = i
+    def helper_guard(call):
+        """`_require(<condition>, <message>)`: a call to a function of the module (or a nested one) whose body raises under a test of
+        its first parameter - the guard idiom behind a helper."""
+        if not isinstance(call, ast.Call) or not isinstance(call.func, ast.Name) or not call.args:
+            return False
+        cands = [f_.node for (rel_, q_), f_ in repo.funcs.items() if rel_ == FILE and q_.split(".")[-1] == call.func.id]
+        for d in cands:
+            ps = [a.arg for a in d.args.posonlyargs + d.args.args]
+            if ps and any(isinstance(x, ast.If) and ps[0] in norm(x.test) and any(isinstance(y, ast.Raise) for y in ast.walk(x)) for x in ast.walk(d)):
+                return True
+        return False
+
+    # the guard idiom also behind a helper: `_require(not <result>.is_cyclic(), ...)`
+    for i, st in enumerate(body[:idx]):
+        if cyc_idx is None and isinstance(st, ast.Expr) and helper_guard(st.value) and f"{ret_name}.is_cyclic()" in norm(st.value.args[0]):
+            cyc_idx = i
     mutated_after = False
-    last_check = max([x for x in (lint_idx, cyc_idx) if x is not None] or [-1])
     for st in body[min([x for x in (lint_idx, cyc_idx) if x is not None] or [idx]):idx]:
         for n in walk_no_nested(st):
             if isinstance(n, ast.Call) and isinstance(n.func, ast.Attribute) and norm(n.func.value) == ret_name and n.func.attr in ("add", "connect", "set_type", "add_subcircuit", "remove", "disconnect", "relabel", "set_output"):
                 mutated_after = True
-    chk.ob("C18.P.lint-dominates-return", "acyclic_unroll::lint(result) before return", lint_idx is not None and not inner_rets and not mutated_after, file=FILE, func="acyclic_unroll", line=ret.lineno,
-           fact={"lint_statement_index": lint_idx, "other_returns": len(inner_rets), "result_mutated_after_check": mutated_after}, expect="cg.lint(<returned circuit>) on every path to the return, nothing mutating it afterwards")
-    chk.ob("C18.P.cyclic-guard-dominates-return", "acyclic_unroll::is_cyclic guard before return", cyc_idx is not None and not inner_rets and not mutated_after, file=FILE, func="acyclic_unroll", line=ret.lineno,
-           fact={"guard_statement_index": cyc_idx}, expect="`if <result>.is_cyclic(): raise` on every path to the return")
+    text = norm(fi.node)
+    # These are shape rules: they fire on the recognisably wrong construct (the check is gone, or the result is edited after it) and
+    # abstain - with a note - on a shape they cannot read (early returns, a check routed through other code); that the result is
+    # acyclic and lint-clean on the model circuits is decided by C18.S on values.
+    lint_mentioned = any(isinstance(n, ast.Call) and (dotted(n.func) or "").split(".")[-1] == "lint" for n in ast.walk(fi.node))
+    lint_ok = lint_idx is not None and not mutated_after
+    # recognisably wrong: lint(<returned name>) as a top-level statement with its undriven rule switched off; the returned name
+    # handed back by an earlier top-level `if ...: return <name>` that lies before the lint statement
+    weakened = any(isinstance(st, ast.Expr) and isinstance(st.value, ast.Call) and (dotted(st.value.func) or "").split(".")[-1] == "lint" and st.value.args and norm(st.value.args[0]) == ret_name
+                   and {k.arg: norm(k.value) for k in st.value.keywords}.get("undriven", "True") != "True" for st in body[:idx])
+    early = any(isinstance(n, ast.Return) and n.value is not None and norm(n.value) == ret_name for st in body[:lint_idx if lint_idx is not None else idx] if not isinstance(st, ast.FunctionDef) for n in walk_no_nested(st))
+    if weakened or early:
+        lint_ok = False
+    if lint_mentioned and not lint_ok and not mutated_after and not weakened and not early:
+        chk.note("acyclic_unroll: lint is called in a shape the must-pass-through rule does not read (not `lint(<returned name>)` as a top-level statement): C18.P.lint-dominates-return abstains")
+        lint_ok = True
+    if lint_ok and inner_rets:
+        chk.note("acyclic_unroll: early returns - the must-pass-through rules abstain on them")
+    chk.ob("C18.P.lint-dominates-return", "acyclic_unroll::lint(result) before return", lint_ok, file=FILE, func="acyclic_unroll", line=ret.lineno,
+           fact={"lint_statement_index": lint_idx, "lint_called_somewhere": lint_mentioned, "result_mutated_after_check": mutated_after}, expect="cg.lint(<returned circuit>) before the return, nothing mutating it afterwards")
+    cyc_mentioned = "is_cyclic()" in text
+    cyc_ok = cyc_idx is not None and not mutated_after
+    if cyc_mentioned and not cyc_ok and not mutated_after:
+        chk.note("acyclic_unroll: is_cyclic() is consulted in a shape the must-pass-through rule does not read: C18.P.cyclic-guard-dominates-return abstains")
+        cyc_ok = True
+    chk.ob("C18.P.cyclic-guard-dominates-return", "acyclic_unroll::is_cyclic guard before return", cyc_ok, file=FILE, func="acyclic_unroll", line=ret.lineno,
+           fact={"guard_statement_index": cyc_idx, "is_cyclic_consulted_somewhere": cyc_mentioned}, expect="`if <result>.is_cyclic(): raise` (or the same through a guard helper) before the return")
     first = body[0]
     bb_guard = isinstance(first, ast.If) and "blackboxes" in norm(first.test) and first.body and isinstance(first.body[-1], ast.Raise)
-    chk.ob("C18.P.blackbox-guard-first", "acyclic_unroll::blackbox guard", bb_guard, file=FILE, func="acyclic_unroll", line=first.lineno, fact={"first_statement": norm(first)[:80]}, expect="if c.blackboxes: raise ValueError")
+    bb_guard = bb_guard or (isinstance(first, ast.Expr) and helper_guard(first.value) and "blackboxes" in norm(first.value.args[0]))
+    if not bb_guard and "blackboxes" in text:
+        # the registry is consulted, though not as the first statement in a form read here: whether circuits with blackboxes are
+        # rejected is decided on a model below (C18.S.blackbox-guard)
+        chk.note("acyclic_unroll: the blackbox guard is not the first statement in a recognised form: C18.P.blackbox-guard-first abstains")
+        bb_guard = True
+    chk.ob("C18.P.blackbox-guard-first", "acyclic_unroll::blackbox guard", bb_guard, file=FILE, func="acyclic_unroll", line=first.lineno, fact={"first_statement": norm(first)[:80]}, expect="circuits with blackboxes are rejected before anything else (`if c.blackboxes: raise ValueError`)")
 
     from ..structural import chain_index_rule
 
@@ -304,6 +348,16 @@ def run(chk):
             prob = {"problem": "argument modified"}
         chk.ob("C18.S.stable-states", key, prob is None, file=FILE, func="acyclic_unroll", line=fi.node.lineno, fact=prob or {"stable_states": len(stable_states(c)), "aux_inputs": sorted(r[1].inputs() - c.inputs())},
                expect="acyclic, lint-clean, same outputs, original inputs + auxiliary inputs, every stable state preserved")
+    # ---- N: node names that collide with the function's own naming (aux_in_<node>, c<i>_<node>, re-created outputs): a latch with
+    # such a node next to it must still be unrolled; the function fails loudly (ValueError) on these
+    def _sr(extra, outs):
+        return build({"s": ("input", []), "r": ("input", []), "q": ("nor", ["r", "qn"]), "qn": ("nor", ["s", "q"]), **extra}, outputs=["q", "qn"] + outs)
+    for what, cN in (("nodes named aux_in_<feedback node>", _sr({"aux_in_q": ("buf", ["s"]), "aux_in_qn": ("buf", ["r"])}, ["aux_in_q", "aux_in_qn"])),
+                     ("input named c0_<other input>", build({"s": ("input", []), "r": ("input", []), "c0_s": ("input", []), "q": ("nor", ["r", "qn", "c0_s"]), "qn": ("nor", ["s", "q"])}, outputs=["q", "qn"])),
+                     ("output named c1_<node>", _sr({"c1_q": ("buf", ["q"])}, ["c1_q"]))):
+        r = P.call(FILE, "acyclic_unroll", cN)
+        chk.ob("C18.N.names", f"acyclic_unroll::{what}", r[0] == "return" and isinstance(r[1], RefCircuit), file=FILE, func="acyclic_unroll", line=fi.node.lineno, fact={"result": str(r)[:160]},
+               expect="an unrolled circuit (copies and auxiliary inputs are named apart whatever the node names are)")
     bb = RefBlackBox("ff", ["d"], ["q"])
     cbb = build({"a": ("input", []), "u.d": ("bb_input", ["a"]), "u.q": ("bb_output", []), "w": ("buf", ["u.q"])}, outputs=["w"], blackboxes={"u": bb})
     r = P.call(FILE, "acyclic_unroll", cbb)
